@@ -30,6 +30,7 @@ pub trait DirectLDLSolver<T: FloatT>: DirectLDLSolverReqs<T> + HasLinearSolverIn
 #[allow(missing_docs, non_snake_case)]
 pub mod verif_hooks_kkt {
     //! plain-data view of the crate-private KKT assembly and its index maps
+    pub use super::kkt_assembly::verif_hooks_ka::*;
     use super::datamaps::*;
     use super::kkt_assembly::*;
     use crate::algebra::*;
